@@ -133,7 +133,16 @@ func GenFlowCase(g *mon.RNG, proto string, o GenOpts) *FlowCase {
 			// the announcing message also carries a data set of a template id this exporter never announced (a
 			// collector that was down for the exporter's earlier announcement sees this all the time): the decoder
 			// reports it, and the templates announced next to it are announced nevertheless
-			unk := Set{Kind: SetRaw, SetID: uint16(60000 + g.Intn(1000)), RawBody: g.Bytes(8)}
+			unkID := uint16(60000 + g.Intn(1000))
+			for again := true; again; {
+				again = false
+				for _, t := range c.Templates {
+					if t.ID == unkID {
+						unkID, again = uint16(60000+g.Intn(1000)), true
+					}
+				}
+			}
+			unk := Set{Kind: SetRaw, SetID: unkID, RawBody: g.Bytes(8)}
 			if g.Bool() {
 				ann = append([]Set{unk}, ann...)
 			} else {
